@@ -502,9 +502,142 @@ def union_pointers(ctx):
                 ctx.event("union_pointers_absolute")
 
 
+def linked_structures(ctx):
+    """A pointer member of a *dereferenced* structure is a pointer on the same stream: every further hop (a linked
+    list, a name string behind the second node, a pointer array in a dereferenced structure) reads the absolute
+    address in the caller's stream, and leaves it where it was."""
+    import io
+
+    for ptr in ("uint8", "uint16", "uint32", "uint64"):
+        for endian in "<>":
+            for compiled in (True, False):
+                for align in (False, True):
+                    text = ("struct node { uint16 v; node *next; char *name; uint8 *vals[2]; };\n"
+                            "struct head { uint8 tag; node *first; };")
+                    ctx.evaluation(("linked-structures", ptr, endian, compiled, align))
+                    ctx.cell("linked-structures")
+                    det = {"text": text, "ptr": ptr, "endian": endian, "compiled": compiled, "align": align,
+                           "workload": "linked-structures"}
+                    try:
+                        cs = lib.load(text, endian, align, compiled, ptr)
+                        w = len(cs.pointer)
+                        bo = "little" if endian == "<" else "big"
+                        nsize, hsize = len(cs.node), len(cs.head)
+                        offs = {f.name: f.offset for f in cs.node.__fields__}
+                        hoff = cs.head.__fields__[1].offset
+                        # layout of the stream: head | node0 | node1 | node2 | strings and values
+                        n_at = [hsize + i * nsize for i in range(3)]
+                        tail_at = hsize + 3 * nsize
+                        if tail_at + 24 >= 1 << (8 * w):
+                            ctx.event("address_space_too_small")
+                            continue
+                        names = [b"zero\x00", b"one\x00", b"two\x00"]
+                        name_at, pos = [], tail_at
+                        for nm in names:
+                            name_at.append(pos)
+                            pos += len(nm)
+                        vals_at = pos
+                        buf = bytearray(pos + 6)
+                        buf[tail_at:pos] = b"".join(names)
+                        buf[vals_at:vals_at + 6] = bytes([0xA0, 0xA1, 0xB0, 0xB1, 0xC0, 0xC1])
+                        buf[0] = 0x5A
+                        buf[hoff:hoff + w] = n_at[0].to_bytes(w, bo)
+                        for i in range(3):
+                            b = n_at[i]
+                            buf[b + offs["v"]:b + offs["v"] + 2] = (0x1000 + i).to_bytes(2, bo)
+                            nxt = n_at[i + 1] if i < 2 else 0
+                            buf[b + offs["next"]:b + offs["next"] + w] = nxt.to_bytes(w, bo)
+                            buf[b + offs["name"]:b + offs["name"] + w] = name_at[i].to_bytes(w, bo)
+                            for k in range(2):
+                                o_ = b + offs["vals"] + k * w
+                                buf[o_:o_ + w] = (vals_at + 2 * i + k).to_bytes(w, bo)
+                        fh = io.BytesIO(bytes(buf))
+                        h = cs.head(fh)
+                        pos0 = fh.tell()
+                        n0 = h.first.dereference()
+                        n1 = n0.next.dereference()
+                        n2 = n1.next.dereference()
+                        facts = {
+                            "values": [int(n0.v), int(n1.v), int(n2.v)] == [0x1000, 0x1001, 0x1002],
+                            "names": [bytes(n.name.dereference()) for n in (n0, n1, n2)] == [b"zero", b"one", b"two"],
+                            "pointer arrays": [[int(p.dereference()) for p in n.vals] for n in (n0, n1, n2)]
+                            == [[0xA0, 0xA1], [0xB0, 0xB1], [0xC0, 0xC1]],
+                            "addresses": [int(n0.next), int(n1.next), int(n2.next)] == [n_at[1], n_at[2], 0],
+                            "same stream": all(p._stream is fh for n in (n0, n1, n2) for p in (n.next, n.name, n.vals[0], n.vals[1])),
+                            "stream not moved": fh.tell() == pos0,
+                            "through attribute access": int(h.first.next.next.v) == 0x1002 and bytes(h.first.next.name.dereference()) == b"one",
+                        }
+                    except Exception as e:  # noqa: BLE001
+                        ctx.violation("linked", f"following-pointers-of-a-dereferenced-structure-raises:{type(e).__name__}",
+                                      dict(det, error=lib.exc_sig(e)))
+                        continue
+                    bad = sorted(k for k, ok in facts.items() if not ok)
+                    if bad:
+                        ctx.violation("linked", "pointer-in-a-dereferenced-structure-is-not-on-the-caller-stream",
+                                      dict(det, failed=bad))
+                    else:
+                        ctx.event("linked_structures_checked")
+
+
+def copied_pointers(ctx):
+    """Copies (copy.copy / copy.deepcopy) of a pointer and of structures holding pointers: same address, same
+    dereferenced value, the stream of the original is left where it was and keeps serving the original; asking a
+    pointer for an attribute it does not have answers AttributeError-wise (hasattr) instead of dereferencing into an
+    error of another kind."""
+    import copy
+    import io
+
+    for ptr in ("uint8", "uint16", "uint32", "uint64"):
+        for endian in "<>":
+            for compiled in (True, False):
+                text = "struct t { uint8 v; uint8 w; };\nstruct s { uint8 a; t *p; uint8 *q[2]; char *n; };"
+                ctx.evaluation(("copied-pointers", ptr, endian, compiled))
+                ctx.cell("copied-pointers")
+                det = {"text": text, "ptr": ptr, "endian": endian, "compiled": compiled, "workload": "copied-pointers"}
+                try:
+                    cs = lib.load(text, endian, False, compiled, ptr)
+                    w = len(cs.pointer)
+                    bo = "little" if endian == "<" else "big"
+                    base = 1 + 4 * w
+                    body = bytes([7]) + b"".join(x.to_bytes(w, bo) for x in (base, base + 2, base + 3, base + 4))
+                    data = body + bytes([0x11, 0x22, 0x33, 0x44]) + b"name\x00" + b"tail"
+                    fh = io.BytesIO(data)
+                    o = cs.s(fh)
+                    pos = fh.tell()
+                    dup, shallow, pc, dflt = copy.deepcopy(o), copy.copy(o), copy.copy(o.p), copy.deepcopy(cs.s())
+                    facts = {
+                        "stream-not-moved": fh.tell() == pos,
+                        "deepcopy-equal": dup == o and dup.dumps() == o.dumps() == body,
+                        "deepcopy-addresses": [int(dup.p), int(dup.q[0]), int(dup.q[1]), int(dup.n)] == [base, base + 2, base + 3, base + 4],
+                        "deepcopy-dereferences": (int(dup.p.v), int(dup.p.w), int(dup.q[1].dereference()), bytes(dup.n.dereference())) == (0x11, 0x22, 0x44, b"name"),
+                        "original-dereferences": (int(o.p.v), int(o.q[0].dereference()), bytes(o.n.dereference())) == (0x11, 0x33, b"name"),
+                        "copy-of-pointer": int(pc) == base and type(pc) is type(o.p) and int(pc.v) == 0x11,
+                        "shallow-copy": shallow == o and int(shallow.p.w) == 0x22,
+                        "default-deepcopy": dflt == cs.s() and int(dflt.p) == 0,
+                        "stream-still-not-moved": fh.tell() == pos,
+                        "hasattr-null": hasattr(cs.s().p, "__nope__") is False,
+                        "hasattr-target": hasattr(o.p, "v") is True and hasattr(o.p, "__nope__") is False,
+                    }
+                    # mutating what the copy points to leaves the original's target alone
+                    dup.p.dereference().v = 0x99
+                    facts["independent-targets"] = int(o.p.v) == 0x11
+                except Exception as e:  # noqa: BLE001
+                    ctx.violation("copies", f"copying-a-pointer-raises:{type(e).__name__}", dict(det, error=lib.exc_sig(e)))
+                    continue
+                bad = sorted(k for k, v in facts.items() if not v)
+                if bad:
+                    ctx.violation("copies", "copied-pointer-differs-from-the-original", dict(det, failed=bad))
+                else:
+                    ctx.event("copied_pointers_checked")
+
+
 def run(ctx):
     if ctx.shard == 0:
         union_pointers(ctx)
+    if ctx.shard % 8 == 3:
+        copied_pointers(ctx)
+    if ctx.shard % 8 == 4:
+        linked_structures(ctx)
     if ctx.shard % 8 == 1:
         reconfigured_width(ctx, ctx.rng("reconfigured"))
     if ctx.shard % 8 == 2:
@@ -523,6 +656,18 @@ def run(ctx):
 
 
 def replay(ctx, detail):
+    if detail.get("workload") == "linked-structures":
+        print(detail)
+        linked_structures(ctx)
+        return
+    if detail.get("workload") == "copied-pointers":
+        print(detail)
+        copied_pointers(ctx)
+        return
+    _replay(ctx, detail)
+
+
+def _replay(ctx, detail):
     import random
 
     print("definition:\n" + detail.get("text", ""))
